@@ -43,8 +43,8 @@ CLAIM = {
             "validate_holder_commitment_tx refuses revoked numbers and a new state on a closed channel; (R2.5) the other "
             "half of the disjointness argument (signed: n = next-1; disclosed: n+2 <= next): only the four named functions "
             "reach LDK's secret release and it is unreachable when n+2 > next_holder_commit_num, whatever else is staged "
-            "(same obligations as C01 R1.1/R1.2). Does not "
-            "decide secret-derivation arithmetic or restart (C11).",
+            "(same obligations as C01 R1.1/R1.2). (R2.6/R2.7) restart clause: every acknowledged change of the channel's enforcement state is persisted before the success return and every persisted field is restored into the same slot, the restored EnforcementState installed unmodified (same obligations as C11 R11.1 for the channel class and C11 R11.2). Does not "
+            "decide secret-derivation arithmetic.",
     "note": "non-permissive policy; rustc MIR; LDK semantics by name; single live object per typed path",
     "technique": "static analysis: MIR who-may-call + guard-scenario entailment with callee look-through + must-pass-through",
 }
@@ -59,6 +59,7 @@ def run(ctx):
     r23(ctx)
     r24(ctx)
     r25(ctx)
+    r_restart(ctx)
 
 
 def r21(ctx):
@@ -201,3 +202,15 @@ def r25(ctx):
     from rules import C01 as _c01
     _c01.r11(ctx, rid="R2.5")
     _c01.r12(ctx, rid="R2.5")
+
+
+def r_restart(ctx):
+    """the restart clause of the statement ("with a signer restart allowed between any two requests"): the channel's
+    enforcement state the rules above reason about is, at every acknowledged request, the state a restarted signer has.
+    Same obligations as C11 R11.1 (persist-before-acknowledge, channel class) and C11 R11.2 (persist / restore field
+    agreement, restored EnforcementState installed unmodified), evaluated here because this property depends on them."""
+    from rules import C11 as _c11
+    from engine import report as _report
+    v = _report.renamed(ctx, {"R11.1": "R2.6", "R11.2": "R2.7"})
+    _c11.r111(v, classes={"channel"})
+    _c11.r112(v)
